@@ -562,3 +562,12 @@ V("DT-gmm-multiply-spelled", ["C02"], "gmm", "sum_pxx.append(np.sum(px * data, a
 V("DT-kmeans-square-native", ["C20"], "kmeans", "np.square(data[closest_centroid_indices == i], dtype=float)", "data[closest_centroid_indices == i] ** 2", "D13 re-introduced: per-cluster squares in the input dtype")
 V("DT-kmeans-astype", ["C20"], "kmeans", "np.square(data[closest_centroid_indices == i], dtype=float)", "data[closest_centroid_indices == i].astype(float) ** 2", "conversion spelled with astype(float)", kind="benign")
 V("DT-fa-intbuffer", ["C07", "C09"], "factor_analysis", "        latent_x_i = []\n        for x_i in X_i:\n", "        latent_x_i = []\n        buf = np.zeros_like(X_i[0].n)\n        buf[0] = self._compute_fn_x_ih(X_i[0], latent_z_i=latent_z_i, latent_y_i=latent_y_i)[0]\n        for x_i in X_i:\n", "float residual stored into a buffer with the dtype of the counts")
+V("R2-score-deadzone", ["C08", "C11"], "linear_scoring", "a = (models_means - ubm.means) / ubm.variances", "a = np.where(np.isclose(models_means, ubm.means), 0.0, (models_means - ubm.means) / ubm.variances)", "dead zone on the model offset: the score is not linear in small offsets")
+V("R2-score-divide-spelled", ["C08"], "linear_scoring", "a = (models_means - ubm.means) / ubm.variances", "a = np.divide(models_means - ubm.means, ubm.variances)", "division spelled with np.divide", kind="benign")
+
+# ----------------------------------------------------------------------------- algorithm rewrites of the k-means moment reducer (second seeding round)
+_REDUCE_OLD = '    closest_centroid_indices = [s[0] for s in stats]\n    means_sum = [s[1] for s in stats]\n    variances_sum = [s[2] for s in stats]\n    closest_centroid_indices = np.concatenate(closest_centroid_indices, axis=0)\n    means_sum = np.sum(means_sum, axis=0)\n    variances_sum = np.sum(variances_sum, axis=0)\n    n_clusters = len(means_sum)\n    weights_count = np.bincount(closest_centroid_indices, minlength=n_clusters)\n    weights = weights_count / weights_count.sum()\n    means = means_sum / weights_count[:, None]\n    variances = variances_sum / weights_count[:, None] - means ** 2\n    return (variances, weights)'
+_REDUCE_CHAN = '    n_clusters, n_features = np.shape(stats[0][1])\n    counts = np.zeros((n_clusters, 1))\n    means = np.zeros((n_clusters, n_features))\n    scatter = np.zeros((n_clusters, n_features))\n    for closest_centroid_indices, means_sum, variances_sum in stats:\n        block_count = np.bincount(closest_centroid_indices, minlength=n_clusters)[:, None]\n        total = counts + block_count\n        safe_total = np.maximum(total, 1)\n        delta = means_sum - block_count * means\n        scatter += variances_sum - 2 * means * means_sum + block_count * means ** 2 - delta ** 2 / safe_total\n        means += delta / safe_total\n        counts = total\n    weights_count = counts[:, 0]\n    weights = weights_count / weights_count.sum()\n    variances = scatter / weights_count[:, None]\n    return (variances, weights)'
+_REDUCE_CHAN_UNGUARDED = '    n_clusters, n_features = np.shape(stats[0][1])\n    counts = np.zeros((n_clusters, 1))\n    means = np.zeros((n_clusters, n_features))\n    scatter = np.zeros((n_clusters, n_features))\n    for closest_centroid_indices, means_sum, variances_sum in stats:\n        block_count = np.bincount(closest_centroid_indices, minlength=n_clusters)[:, None]\n        total = counts + block_count\n        delta = means_sum - block_count * means\n        scatter += variances_sum - 2 * means * means_sum + block_count * means ** 2 - delta ** 2 / total\n        means += delta / total\n        counts = total\n    weights_count = counts[:, 0]\n    weights = weights_count / weights_count.sum()\n    variances = scatter / weights_count[:, None]\n    return (variances, weights)'
+V("R2-chan-merge-guarded", ["C04", "C13", "C15", "C20", "C06", "C16"], "kmeans", _REDUCE_OLD, _REDUCE_CHAN, "block-by-block (Chan) merge of counts, means and scatter with the running count floored at 1: same result for every chunking", kind="benign")
+V("R2-chan-merge-unguarded", ["C13"], "kmeans", _REDUCE_OLD, _REDUCE_CHAN_UNGUARDED, "same merge dividing by the raw running count: a cluster absent from the leading block gets 0/0 = NaN that persists")
